@@ -21,7 +21,7 @@ def cases(ctx):
     n = ctx.pick(260, 6000)
     out = []
     for i in range(n):
-        out.append({'prop': PROPERTY, 'seed': ctx.seed * 1000003 + i, 'monitors': MONITORS, 'steps': (8, 40),
+        out.append({'prop': PROPERTY, 'seed': ctx.seed * 1000003 + i, 'monitors': MONITORS, 'steps': (8, 40), 'tolerate_stale_writer': True,
                     'pack_targets': [1, 50, 500, 500, 70000, 70000, 4 * 1024 ** 3],
                     'gen': {'allow': ALLOW, 'big_p': 0.01, 'chunk_p': 0.08, 'handles': 3}})
     return out
